@@ -560,7 +560,7 @@ class Fn:
         if k == 'index':
             return '%s[%s]' % (f(n['base']), f(n['idx']))
         if k == 'initlist':
-            return '{%s}' % ', '.join(f(a) for a in n['elems'])
+            return '%s{%s}' % (n.get('t', ''), ', '.join(f(a) for a in n['elems']))
         if k == 'lambda':
             return '<lambda>'
         if k == 'ret':
